@@ -58,7 +58,7 @@ TEXT = {
             "that outlives its creator writes a captured variable; no package-level variable written outside init). "
             "The real code is run under the race detector on a grid N x GOMAXPROCS with shared engine/templates/bindings; "
             "oracle: no race report and every concurrent result equals the sequential one.",
-    "design_ref": "DESIGN.md 6 C04, 4.8, 5.3 (T3), 7 (D10)",
+    "design_ref": "DESIGN.md 6 C04, 4 (Conc.lean in the table of model files), 3.3 and 5.4 (T3), 7.1 (12fa2bb; D10 in A.5)",
     "note": NOTE + "The race-detector rounds sample schedules (and with GOMAXPROCS=1 incidental sync.Pool edges hide many "
             "races); the all-schedules statement is about the abstract machine under the assumed premise WritesOwned/"
             "ReadsVisible; the T3 obligation checks only that no store goes through a captured or package-level variable (its "
